@@ -118,6 +118,7 @@ class MonitorExec(Exec):
 
     # segments ---------------------------------------------------------------------------------
     def segment_start(self, st, point):
+        st.mon['released'] = {}
         self.mspec.havoc(self, st)
         for label, f in self.mspec.inv(self, st):
             st.assume(f)
@@ -228,10 +229,34 @@ def lock_acquire(ex, st, lk, blocking):
     if not lk.reentrant:
         # a thread never re-acquires a plain Lock it already holds (would self-deadlock)
         ex.safety(st, z3.Implies(blocking, lk.owner != tid), f'no self-deadlock on {lk.name}', None)
+    rel = st.mon.get('released', {}).get(lk.name)
+    if rel is not None and isinstance(ex, MonitorExec):
+        # The lock was given up and is taken again inside one segment: other threads ran in between.  The
+        # invariant must have held when the lock was released (checked on the state saved there), and what
+        # this thread knew about the shared state is void now (havoc under the invariant).  The depth of a
+        # reentrant lock is not tracked across this cut: the release is treated as a full one.
+        ex.segment_end(rel, f'release of {lk.name} before it is acquired again')
+        saved_bal = dict(st.mon['bal'])
+        ex.segment_start(st, f'reacquire:{lk.name}')
+        st.mon['bal'] = saved_bal
+        lk = _relookup(st, lk)
+        enabled = z3.Or(lk.owner == 0, z3.And(lk.owner == tid, z3.BoolVal(lk.reentrant)))
+        st.assume(z3.Implies(r, enabled))
+        st.assume(z3.Implies(z3.And(z3.Not(blocking), enabled), r))
     lk.depth = z3.If(r, lk.depth + 1, lk.depth)
     lk.owner = z3.If(r, tid, lk.owner)
     _bal(st, lk, z3.If(r, 1, 0))
     return Val(TBool, r)
+
+
+def _relookup(st, lk):
+    """the LockVal object of the same lock after a havoc (specs may replace lock objects)"""
+    self_ = st.env.get('self')
+    fields = getattr(self_, 'fields', {}) if self_ is not None else {}
+    for v in fields.values():
+        if isinstance(v, LockVal) and v.name == lk.name:
+            return v
+    return lk
 
 
 def lock_release(ex, st, lk, node):
@@ -240,6 +265,11 @@ def lock_release(ex, st, lk, node):
     lk.depth = lk.depth - 1
     lk.owner = z3.If(lk.depth == 0, 0, tid)
     _bal(st, lk, -1)
+    if isinstance(ex, MonitorExec):
+        rel = dict(st.mon.get('released', {}))
+        st.mon['released'] = rel
+        rel[lk.name] = None
+        rel[lk.name] = st.clone()
 
 
 def install_lock_intrinsics(M):
